@@ -966,7 +966,7 @@ def replay_pearson_w(payload):
                 if not close(coef, r_exp, 1e-8):
                     fail("value", dict(feats, matches=matches_dev(c, coef, p)), coef, r_exp, c)
                     continue
-                if abs(p - p_exp) > 1e-7:
+                if not (abs(p - p_exp) <= 1e-7):
                     fail("p_value", dict(feats, matches=matches_dev(c, coef, p)), p, p_exp, c)
                     continue
                 for a in alphas:
@@ -989,6 +989,6 @@ def replay_pearson_w(payload):
                 kind = "shift" if tr["a"] == 1 else ("scale" if tr["b"] == 0 else "affine")
                 feats = {"Z_empty": not Z, "shifted": tr["b"] != 0, "matches": matches_dev(c, coef, p)}   # variable / map: case.group[1].tr
                 ref = base_obs if base_obs is not None else (r_exp, p_exp)
-                if not close(coef, ref[0], 1e-8) or abs(p - ref[1]) > 1e-7:
+                if not close(coef, ref[0], 1e-8) or not (abs(p - ref[1]) <= 1e-7):
                     fail("affine_invariance", feats, [coef, p], list(ref), c)
     return {"n": sum(len(g) for g in payload["groups"]), "calls": ncalls, "fails": fails, "nsig": nsig}
